@@ -202,6 +202,11 @@ pub fn case(ctx: &mut Ctx, idx: u64) {
     let max_objects = if ctx.thorough() { 80 } else { 40 };
     for k in 0..n_maps {
         let text = match (k, rng.below(10)) {
+            // a hostile neighbour: decoding it ends in the middle of a rejected slider path (every third case)
+            (1, _) if idx % 3 == 0 => {
+                ctx.count("class:pool-with-half-rejected-slider-file");
+                osu::half_rejected_tail_text(&mut rng)
+            }
             (0, _) | (_, 0 | 1) => osu::bpm_tie_file(&mut rng).render(),
             (_, 2 | 3) => osu::generate(
                 &mut rng,
